@@ -314,9 +314,10 @@ def claims(tier):
             for fm in range(6):
                 cl.append(Claim("remove[k=%d%s,form=%d]" % (k, tag, fm), c12_remove, params=par, pre=[pre_k(k), extra, lambda j, oj, form, fm=fm: 0 <= j < np_ and 0 <= oj <= 9 and form == fm], timeout=1200 if q else 3000, bounds=b + "; op %s" % ["remove_note(name)", "remove_note(name, octave)", "remove_note(Note)", "remove_notes([name, Note])", "- name", "- Note"][fm]))
             cl.append(Claim("queries[k=%d%s]" % (k, tag), c12_queries, params=par, pre=[pre_k(k), extra, lambda j, oj: 0 <= j < np_ and 0 <= oj <= 9], timeout=1200 if q else 3000, bounds=b + "; len, in, ==, get_note_names, four consonance predicates (flag symbolic)"))
-    par = {"k": 2, "pool": pool[:4] if q else pool[:8]}
+    par = {"k": 2, "pool": pool[:3] if q else pool[:6]}
     npp = len(par["pool"])
-    cl.append(Claim("add_many", c12_add_many, params=par, pre=[lambda i1, i2, o1, o2, j1, j2, q1, q2, form: 0 <= i1 < npp and 0 <= i2 < npp and 1 <= o1 <= 8 and 1 <= o2 <= 8 and 0 <= j1 < npp and 0 <= j2 < npp and 0 <= q1 <= 9 and 0 <= q2 <= 9 and 0 <= form < 5], timeout=1200 if q else 3000, bounds="pre-state 2 notes; two added notes (names from %r, octaves symbolic) as list of Notes / [name, oct] pairs / container / '+' list / '+' container" % (par["pool"],)))
+    for fm in range(5):
+        cl.append(Claim("add_many[form=%d]" % fm, c12_add_many, params=par, group="c12_add_many", pre=[lambda i1, i2, o1, o2, j1, j2, q1, q2, form, fm=fm: 0 <= i1 < npp and 0 <= i2 < npp and 1 <= o1 <= 8 and 1 <= o2 <= 8 and 0 <= j1 < npp and 0 <= j2 < npp and 0 <= q1 <= 9 and 0 <= q2 <= 9 and form == fm], timeout=1200 if q else 3000, bounds="pre-state 2 notes; two added notes (names from %r, octaves symbolic) given as %s" % (par["pool"], ["list of Notes", "[name, oct] pairs", "container", "'+' list of mixed forms", "'+' container"][fm])))
     cl.append(Claim("add_bare_list", c12_add_bare_list, params={"pool": pool}, group="c12_add_bare_list", pre=[lambda j1, j2, j3: 0 <= j1 < np_ and 0 <= j2 < np_ and 0 <= j3 < np_], timeout=1200 if q else 3000, bounds="NoteContainer([n1, n2, n3]) and '+' from empty, bare names from %r" % (pool,)))
     cl.append(Claim("probe_add_bare", c12_add_bare, params={"k": 1, "pool": POOL_T, "exclude_known": False}, group="c12_add_bare", pre=[], probe_only=True))
     cl.append(Claim("probe_add_bare_list", c12_add_bare_list, params={"pool": POOL_T, "exclude_known": False}, group="c12_add_bare_list", pre=[], probe_only=True))
